@@ -9,7 +9,7 @@ from pbt.runner import Outcome
 from pbt.sut import Sequence
 
 ID = "C15"
-MIN_NONTRIVIAL = 0.35
+MIN_NONTRIVIAL = 0.3
 RULE = ("Hypothesis: 1-4 well-formed sequences over a shared pool of 2 channels x 2-3 pitches (so that overlapping, abutting, "
         "nested and identical notes of one key across inputs are frequent), different lengths, empty sequences, trailing "
         "rests, any construction route; time/key signature events at ticks distinct per kind across the inputs, or (a third of the multi-input cases) several inputs "
@@ -20,7 +20,8 @@ RULE = ("Hypothesis: 1-4 well-formed sequences over a shared pool of 2 channels 
         "(over the tick-ordered union) is present at its tick and none is invented; the signature in force as a function of time read "
         "from the output list equals that of the inputs laid over each other in merge order; duration = max input duration; "
         "(channel, pitch, on, off) list identical for the permuted order. Non-trivial: >= 2 inputs and a strictly "
-        "overlapping same-key pair across inputs. Distinct by case digest.")
+        "overlapping same-key pair across inputs or two inputs whose note spans intersect in time. Distinct by case digest.")
+RULE = RULE + " Rounds e-g: equal-ratio signatures, same-tick signatures of several inputs with a merge-order model, channel pools, silent notes, far shifts, staggered families."
 ASSUMPTIONS = ["the velocity kept by a fused note is not part of the statement",
                "control/program changes are generated as noise but their fate is not part of the statement"]
 TIERS = {"quick": dict(shards=8, examples=1200, alt_ppqn=[480], alt_shards=2),
@@ -56,7 +57,7 @@ def _case(draw, size=1):
         if draw(st.integers(0, 7)) == 0:
             notes = []
         else:
-            notes = draw(gens.wellformed_notes(channels=(0, 1), pitches=pitches, max_notes=6 * size, max_len=40, max_gap=25,
+            notes = draw(gens.wellformed_notes(channels="pool", pitches=pitches, max_notes=6 * size, max_len=40, max_gap=25,
                                                start_max=50))
         meta = metas[i]
         if draw(st.integers(0, 3)) == 0:
@@ -66,6 +67,20 @@ def _case(draw, size=1):
         end = max([n[3] for n in notes] + [m[1] for m in meta] + [0])
         spec["pad"] = draw(st.one_of(st.none(), st.just(end + draw(st.integers(0, 40)))))
         seqs.append(spec)
+    if k >= 3 and draw(st.integers(0, 3)) == 0:
+        # staggered: the first input (the receiver in half of the cases) ends before any other input begins, and the others
+        # interleave with one another
+        end0 = max([n[3] for n in seqs[0]["notes"]] + [m[1] for m in seqs[0]["meta"]] + [seqs[0]["pad"] or 0])
+        for spec in seqs[1:]:
+            spec["shift"] = end0 + draw(st.integers(0, 3))
+            if spec["pad"] is not None:
+                spec["pad"] += spec["shift"]
+    elif draw(st.integers(0, 11)) == 0:
+        sh = draw(st.sampled_from(gens.FAR))      # the whole family far from tick 0
+        for spec in seqs:
+            spec["shift"] = sh
+            if spec["pad"] is not None:
+                spec["pad"] += sh
     return {"seqs": seqs, "receiver": draw(st.sampled_from(["first", "fresh"])),
             "perm": draw(st.permutations(list(range(k)))), "twice": draw(st.integers(0, 5)) == 0}
 
@@ -114,7 +129,9 @@ def check(case):
                 x, y = lst[a], lst[b]
                 if x[2] != y[2] and max(x[0], y[0]) < min(x[1], y[1]):
                     pairs.append((key, x, y))
-    out.nontrivial = len(specs) >= 2 and bool(pairs)
+    spans = [(min(n[2] for n in ns), max(n[3] for n in ns)) for ns in per_input if ns]
+    interleaved = any(a[0] < b[1] and b[0] < a[1] for i, a in enumerate(spans) for b in spans[i + 1:])
+    out.nontrivial = len(specs) >= 2 and (bool(pairs) or interleaved)
     out.label(f"inputs={len(specs)}", "receiver-" + case["receiver"], *(["overlapping-pair"] if pairs else []))
     try:
         merged = _merge(specs, case["receiver"], case.get("twice", False))
